@@ -257,6 +257,38 @@ Section Codec.
     destruct (k <? 32); destruct e; try reflexivity; contradiction.
   Qed.
 
+  Theorem Unmarshal_cut_eof m ver k cs t fuel :
+    t_err t = EEOF ->
+    zlen ver <= 16 -> no_trailing_nul ver = true ->
+    bytes_ok ver -> bytes_ok (enc m) -> zlen (enc m) < 2 ^ 63 - 32 ->
+    0 <= k < 32 + zlen (enc m) ->
+    chunks_ok cs -> concat cs = firstn (Z.to_nat k) (frame ver (enc m)) ->
+    (length (concat cs) + 2 <= fuel)%nat ->
+    Unmarshal dec cread grow fuel (cs, t)
+      = Some (k, (if k <? 32 then [] else ver),
+              Some (if (k =? 0) || (k =? 32) then EEOF else EUnexpectedEOF), None, ([], t)).
+  Proof.
+    intros Ht Hv Hnul Bv Bb Hlen Hk Hok Hcs Hfuel.
+    rewrite (Unmarshal_cut m ver k cs t fuel) by assumption.
+    rewrite cut_err_eof by (try assumption; lia). reflexivity.
+  Qed.
+
+  (** a read error injected at offset k of the frame *)
+  Theorem Unmarshal_cut_readerr m ver k cs t fuel :
+    t_err t <> EEOF ->
+    zlen ver <= 16 -> no_trailing_nul ver = true ->
+    bytes_ok ver -> bytes_ok (enc m) -> zlen (enc m) < 2 ^ 63 - 32 ->
+    0 <= k < 32 + zlen (enc m) ->
+    chunks_ok cs -> concat cs = firstn (Z.to_nat k) (frame ver (enc m)) ->
+    (length (concat cs) + 2 <= fuel)%nat ->
+    Unmarshal dec cread grow fuel (cs, t)
+      = Some (k, (if k <? 32 then [] else ver), Some (t_err t), None, ([], t)).
+  Proof.
+    intros Ht Hv Hnul Bv Bb Hlen Hk Hok Hcs Hfuel.
+    rewrite (Unmarshal_cut m ver k cs t fuel) by assumption.
+    rewrite (cut_err_injected t k (t_err t)) by auto. reflexivity.
+  Qed.
+
   (** C07: a header whose recorded header size is not 32 *)
   Theorem Unmarshal_hsize cs t fuel :
     chunks_ok cs -> bytes_ok (concat cs) -> zlen (concat cs) < 2 ^ 63 ->
